@@ -433,4 +433,4 @@ Example generations_example :
   /\ map r_status (snd (run init_state rs)) = [200; 200; 200; 200; 200; 200]
   /\ option_map o_metagen (find_obj (fst (run init_state rs)) bk [120]%N) = Some 2
   /\ option_map o_gen (find_obj (fst (run init_state rs)) bk [120]%N) = Some (clock0 + 2).
-Proof. cbn zeta. repeat split; vm_compute; reflexivity. Qed.
+Proof. cbn zeta. repeat split; timeout 60 vm_compute; reflexivity. Qed.
